@@ -34,7 +34,7 @@ LogEq(ml, ol) == /\ Len(ml) = Len(ol)
 \* candidate fault plans for events recorded without hook logs (arbitrary user classes):
 \* TLC infers which hook raised
 PlansFor(e) ==
-  IF e.haslog THEN {PlanOf(e)}
+  IF e.haslog \/ e.sure THEN {PlanOf(e)}
   ELSE IF e.exc \notin {"HookFault", "RecursionError"} THEN {NoFault}
   ELSE {Once({k}) : k \in 1..40}
        \cup {Persist(K, DOMAIN e.prepar) : K \in {{h} : h \in HookKinds} \cup {{"pre_detach", "pre_attach"}}}
@@ -58,7 +58,7 @@ Violated(e) ==
   (IF ~C01_OK(o) THEN {"C01"} ELSE {})
   \* (the other predicates only need a well-formed pre-state: a corrupt post-state also fails to be the specified effect)
   \cup (IF PreOK(e) /\ DOMAIN o.postpar = DOMAIN o.prepar /\ DOMAIN o.postch = DOMAIN o.prech
-        THEN (IF (e.haslog \/ e.exc \notin {"HookFault", "RecursionError"}) /\ ~C02_OK(o) THEN {"C02"} ELSE {})
+        THEN (IF (e.haslog \/ e.exc \notin {"HookFault", "RecursionError"} \/ (e.sure /\ e.plan.mode = "none")) /\ ~C02_OK(o) THEN {"C02"} ELSE {})
              \cup (IF (e.haslog \/ Refused(o)) /\ ~C03_OK(o) THEN {"C03"} ELSE {})
              \cup (IF e.haslog /\ ~C16_OK(o) THEN {"C16"} ELSE {})
         ELSE {})
